@@ -267,6 +267,7 @@ func driveAlloc(c *ctx) error {
 		"70% stateful (releases mirror earlier allocations), 30% free; 10% with limits near 2^64 and hostile amounts; " +
 		"non-trivial = at least one allocation had to wait; distinct = distinct (config, script, observation) terms"
 	add := func(ac allocCase, tag string) {
+		c.inflight(ac)
 		obs := runAllocCase(ac)
 		nt, tags := allocNontrivial(obs)
 		tags = append(tags, "kind:"+tag, fmt.Sprintf("len:%02d-%02d", len(ac.Ops)/10*10, len(ac.Ops)/10*10+9))
